@@ -90,6 +90,7 @@ func (gaugeScenario) Build(cfg string) ([]func(), func(*vsched.Sched) []string) 
 	type outcome struct {
 		err      error
 		panicked bool
+		panicVal interface{}
 		ran      bool
 		fbRan    bool
 	}
@@ -102,6 +103,7 @@ func (gaugeScenario) Build(cfg string) ([]func(), func(*vsched.Sched) []string) 
 			defer func() {
 				if r := recover(); r != nil {
 					outs[i].panicked = true
+					outs[i].panicVal = r
 				}
 			}()
 			outs[i].err = c.Execute(context.Background(), func(context.Context) error {
@@ -160,6 +162,23 @@ func (gaugeScenario) Build(cfg string) ([]func(), func(*vsched.Sched) []string) 
 		}
 		if rec.runRejects != runRejected {
 			problems = append(problems, fmt.Sprintf("%d calls refused without running but %d rejection events", runRejected, rec.runRejects))
+		}
+		// C10 under schedules: a panic in one call reaches ITS caller with its value, and the gauges are restored
+		// whatever the other callers were doing meanwhile
+		if strings.ContainsAny(acts, "pP") {
+			if c.ConcurrentCommands() != 0 || c.ConcurrentFallbacks() != 0 {
+				problems = append(problems, fmt.Sprintf("C10: gauges read %d/%d after panicking calls returned among concurrent callers", c.ConcurrentCommands(), c.ConcurrentFallbacks()))
+			}
+			for i, o := range outs {
+				want := map[byte]string{'p': "run panic", 'P': "fallback panic"}[acts[i]]
+				reached := (acts[i] == 'p' && o.ran) || (acts[i] == 'P' && o.fbRan)
+				if reached && (!o.panicked || o.panicVal != want) {
+					problems = append(problems, fmt.Sprintf("C10: caller %d's function panicked with %q but the caller saw panicked=%t value=%v", i, want, o.panicked, o.panicVal))
+				}
+				if !reached && o.panicked {
+					problems = append(problems, fmt.Sprintf("C10: caller %d saw a panic (%v) although its own functions raised none", i, o.panicVal))
+				}
+			}
 		}
 		if mc < 0 && runRejected > 0 {
 			problems = append(problems, "negative limit rejected a call")
